@@ -73,4 +73,14 @@ ENTRIES = {
         "note": TB + "; f64 information content with Kahan summation and a 1e-6 bit guard",
         "technique": "runtime monitoring: online bound monitor on size queries and a write-counting backend under adversarial symbol choice",
     },
+    "C03": {
+        "text": "Builds tens of thousands of models per run from documented-valid inputs through every public constructor family (leaky quantizer over 8 "
+                "third-party distribution families plus the harness's own step-shaped CDFs, parameters spread over hundreds of orders of magnitude, poor but "
+                "legal inverse hints, narrow and signed symbol types; categorical fast/perfect/lazy/lookup/non-contiguous from f32 and f64 tables with tails "
+                "below float resolution; fixed-point tables; uniform) and runs an exact integer validity checker on each: tiling of [0,2^P), no zero or one "
+                "probability, None outside the support incl. aliasing values, and the quantile function on EVERY quantile up to 2^16 (edges, +-1 and random "
+                "quantiles above). A CPU-time watchdog turns non-termination of a lookup into a violation.",
+        "note": TB + "; alarms on third-party CDFs that are demonstrably non-monotone at the probed points are counted but not judged (documented precondition)",
+        "technique": "runtime monitoring: exact reference-model validity checker over generated constructor inputs; std UB checks, overflow checks and a CPU-time hang watchdog",
+    },
 }
